@@ -1482,6 +1482,16 @@ def _split_flag_ifexp(fn: ast.FunctionDef) -> bool:
             t = t.operand
         return t.id if isinstance(t, ast.Name) and stores.get(t.id) == 1 and t.id in tested else None
 
+    def adopt_or_create(v):
+        """`y if isinstance(y, T) else make()` / `make() if not isinstance(y, T) else y`: one arm is the tested object itself"""
+        t = v.test
+        if isinstance(t, ast.UnaryOp) and isinstance(t.op, ast.Not):
+            t = t.operand
+        if isinstance(t, ast.Call) and isinstance(t.func, ast.Name) and t.func.id == "isinstance" and len(t.args) == 2 and isinstance(t.args[0], ast.Name):
+            y = t.args[0].id
+            return any(isinstance(arm, ast.Name) and arm.id == y for arm in (v.body, v.orelse))
+        return False
+
     def visit(body: List[ast.stmt]):
         for i, st in enumerate(list(body)):
             for field in ("body", "orelse", "finalbody"):
@@ -1493,7 +1503,7 @@ def _split_flag_ifexp(fn: ast.FunctionDef) -> bool:
                     visit(h.body)
             tgt_ = st.targets[0] if isinstance(st, ast.Assign) and len(st.targets) == 1 else (st.target if isinstance(st, ast.AnnAssign) else None)
             if isinstance(tgt_, ast.Name) and isinstance(getattr(st, "value", None), ast.IfExp) \
-                    and flag_of(st.value.test) and tgt_.id != flag_of(st.value.test):
+                    and ((flag_of(st.value.test) and tgt_.id != flag_of(st.value.test)) or adopt_or_create(st.value)):
                 a = ast.Assign(targets=[copy.deepcopy(tgt_)], value=st.value.body)
                 b = ast.Assign(targets=[copy.deepcopy(tgt_)], value=st.value.orelse)
                 new = ast.If(test=st.value.test, body=[a], orelse=[b])
@@ -1507,8 +1517,8 @@ def _split_flag_ifexp(fn: ast.FunctionDef) -> bool:
 
 
 def _split_attribute_tuple_assign(body: List[ast.stmt]) -> bool:
-    """`o.a, o.b = (x, y)` (a display of the same length on the right, at least one attribute / item target, no target read on
-    the right) -> `o.a = x` / `o.b = y`: stores into objects are looked for as plain assignments."""
+    """`o.a, o.b = (x, y)` / `a, b = (x, y)` (a display of the same length on the right, no element on the right reads a target
+    assigned before it) -> one assignment per target, in order."""
     changed = False
     i = 0
     while i < len(body):
@@ -1522,12 +1532,19 @@ def _split_attribute_tuple_assign(body: List[ast.stmt]) -> bool:
                 changed |= _split_attribute_tuple_assign(h.body)
         if isinstance(st, ast.Assign) and len(st.targets) == 1 and isinstance(st.targets[0], (ast.Tuple, ast.List)) and isinstance(st.value, (ast.Tuple, ast.List)) \
                 and len(st.targets[0].elts) == len(st.value.elts) and not any(isinstance(e, ast.Starred) for e in st.targets[0].elts + st.value.elts) \
-                and any(isinstance(t, (ast.Attribute, ast.Subscript)) for t in st.targets[0].elts):
-            tt = [ast.unparse(t) for t in st.targets[0].elts]
-            rhs = " ".join(ast.unparse(v) for v in st.value.elts)
-            names_t = {n.id for t in st.targets[0].elts if isinstance(t, ast.Name) for n in [t]}
-            reads = {n.id for v in st.value.elts for n in ast.walk(v) if isinstance(n, ast.Name)}
-            if not any(t in rhs for t in tt if "." in t or "[" in t) and not (names_t & reads):
+                and all(isinstance(t, (ast.Attribute, ast.Subscript, ast.Name)) for t in st.targets[0].elts):
+            # sequential assignment is the same when no right-hand element reads a target that was assigned before it
+            ok_seq = True
+            for ti, t in enumerate(st.targets[0].elts):
+                later = st.value.elts[ti + 1:]
+                if isinstance(t, ast.Name):
+                    if any(isinstance(n, ast.Name) and n.id == t.id for v in later for n in ast.walk(v)):
+                        ok_seq = False
+                else:
+                    tt_ = ast.unparse(t)
+                    if any(tt_ in ast.unparse(v) for v in later):
+                        ok_seq = False
+            if ok_seq:
                 new = []
                 for t, v in zip(st.targets[0].elts, st.value.elts):
                     a = ast.copy_location(ast.Assign(targets=[t], value=v), st)
@@ -1758,9 +1775,18 @@ def _rewrite_dict_dispatch(fn: ast.FunctionDef, dict_of) -> bool:
     def chain(st: ast.stmt, call: ast.Call, rows, key, default) -> List[ast.stmt]:
         def variant(func_expr):
             new_call = ast.Call(func=copy.deepcopy(func_expr), args=[copy.deepcopy(a) for a in call.args], keywords=[copy.deepcopy(k) for k in call.keywords])
+            # put the new call where the old one was (the statement's whole value, or inside it)
+            call._dispatch_here = True
             new_st = copy.deepcopy(st)
-            # put the new call where the old one was (the call is the statement's whole value)
-            new_st.value = new_call
+            del call._dispatch_here
+
+            class P(ast.NodeTransformer):
+                def visit_Call(self, node):
+                    if getattr(node, "_dispatch_here", False):
+                        return new_call
+                    self.generic_visit(node)
+                    return node
+            new_st = P().visit(new_st)
             return ast.copy_location(new_st, st)
         if default is not None:
             tail: List[ast.stmt] = [variant(default)]
@@ -1785,6 +1811,12 @@ def _rewrite_dict_dispatch(fn: ast.FunctionDef, dict_of) -> bool:
                 for h in st.handlers:
                     visit(h.body)
             call = st.value if isinstance(st, (ast.Return, ast.Assign, ast.Expr)) and isinstance(getattr(st, "value", None), ast.Call) else None
+            if call is None and isinstance(st, (ast.Return, ast.Assign)) and isinstance(getattr(st, "value", None), (ast.Tuple, ast.List)):
+                # the dispatched call as one element of a returned / assigned display: return (TABLE[k](x), k)
+                cands = [e_ for e_ in st.value.elts if isinstance(e_, ast.Call) and lookup(e_.func) is not None]
+                others = [e_ for e_ in st.value.elts if e_ not in cands]
+                if len(cands) == 1 and all(_simple_arg(o) for o in others) and st.value.elts.index(cands[0]) == 0:
+                    call = cands[0]
             if call is not None and not any(isinstance(a, ast.Starred) for a in call.args):
                 # written in place
                 lk = lookup(call.func)
